@@ -194,11 +194,11 @@ PROPS = {
             "translator T1: harness/dump_tables.cpp compiled by g++ in -std=c++11/14/17/20 against /repo's current headers and sources (-fno-access-control) + harness/gen_tables.py",
             "Spec.CodePoints: hand transcription of the Standard's set definitions (DESIGN appendix A.1)"],
         assumptions=["the four language modes are exercised with g++ 12.2 only"]),
-    "C01": P("exploration", model_variants=["spec", "impl"], streams=["parse", "parse_exhaustive"], trusted_base=TB_CORR),
+    "C01": P("exploration", model_variants=["spec", "impl"], streams=["parse", "parse_exhaustive"], trusted_base=TB_CORR, coq_files=["Properties_C01_total.v"]),
     "C02": P("exploration", model_variants=["spec", "impl"], streams=["reparse"], trusted_base=TB_CORR),
     "C03": P("exploration", model_variants=["spec", "impl"], streams=["setters"], trusted_base=TB_CORR),
-    "C05": P("exploration", model_variants=["spec", "impl"], streams=["histories"], trusted_base=TB_CORR),
-    "C06": P("exploration", ["histories"], trusted_base=TB_CORR),
+    "C05": P("exploration", model_variants=["spec", "impl"], streams=["histories"], trusted_base=TB_CORR, coq_files=["Properties_C06.v"]),
+    "C06": P("proof", ["histories"], trusted_base=TB_CORR),
     "C07": P("exploration", model_variants=["spec", "impl"], streams=["host"], trusted_base=TB_CORR),
     "C08": P("exploration", model_variants=["spec", "impl"], streams=["parse", "setters", "histories"], trusted_base=TB_CORR),
     "C09": P("exploration", model_variants=["spec", "impl"], streams=["canparse"], trusted_base=TB_CORR),
